@@ -7,7 +7,7 @@
   After the repair of `compare_wire_values` (NaN after every number; Int64 against Float64 compared
   exactly) the comparator is a total preorder on all values and the full statement holds.
 -/
-import ILV.Lemmas.WireOrder
+import ILV.Lemmas.PageSpec
 import ILV.Gen.C35
 namespace ILV.Props.C35
 open ILV
@@ -63,37 +63,6 @@ example :
 
 /-! ## the full statement -/
 
-/-- comparator = exact order of the annotations on rows without a NaN sort key. -/
-theorem specCmpV_eq_of_not_nan (a b : WVal) (ha : a.isNaN = false) (hb : b.isNaN = false) :
-    specCmpV a b = compareWV a b := by
-  cases a <;> cases b <;> simp_all [specCmpV, compareWV, WVal.isNaN, cmpI64F64, cmpIntF]
-
-theorem specRowCmp_eq (keys : List SortKey) (x y : WRow)
-    (hx : rowHasNaNKey keys x = false) (hy : rowHasNaNKey keys y = false) :
-    specRowCmp keys x y = rowCmp keys x y := by
-  induction keys with
-  | nil => rfl
-  | cons k ks ih =>
-    obtain ⟨col, desc⟩ := k
-    simp only [rowHasNaNKey, List.any_cons, Bool.or_eq_false_iff] at hx hy
-    have ih' := ih (by simpa [rowHasNaNKey] using hx.2) (by simpa [rowHasNaNKey] using hy.2)
-    have hcol : specCmpO x[col]? y[col]? = compareWire x[col]? y[col]? := by
-      cases hxv : x[col]? with
-      | none => cases y[col]? <;> rfl
-      | some vx =>
-        cases hyv : y[col]? with
-        | none => rfl
-        | some vy =>
-          simp only [specCmpO, compareWire]
-          apply specCmpV_eq_of_not_nan
-          · have := hx.1; simpa [hxv] using this
-          · have := hy.1; simpa [hyv] using this
-    simp only [specRowCmp, rowCmp, hcol, ih']
-
-/-- Spec sortedness as a proposition: the rows without a NaN sort key are in the exact order. -/
-def SpecSorted (keys : List SortKey) (s : List WRow) : Prop :=
-  (s.filter (fun r => !rowHasNaNKey keys r)).Pairwise (fun x y => specRowCmp keys x y ≠ .gt)
-
 /-- **C35, full statement**: for every answer (of well-formed rows), every key list, limit and offset:
     the reported total is the answer size and the page is `take limit (drop offset s)` for a permutation
     `s` of the answer that is sorted by the annotations — w.r.t. the comparator on all rows (NaN keys last
@@ -116,15 +85,37 @@ theorem C35 (a : List WRow) (keys : List SortKey) (limit offset : Option Nat) (h
       unfold sortRows; simpa [hne] using hs
     refine ⟨hsort, ?_⟩
     unfold SpecSorted
-    have hsub := List.Pairwise.sublist (List.filter_sublist (p := fun r => !rowHasNaNKey keys r) (l := sortRows a keys)) hsort
+    have hsub := List.Pairwise.sublist (List.filter_sublist (p := nfRow keys) (l := sortRows a keys)) hsort
     refine List.Pairwise.imp_of_mem ?_ hsub
     intro x y hx hy hxy
-    have nx : rowHasNaNKey keys x = false := by simpa using (List.mem_filter.1 hx).2
-    have ny : rowHasNaNKey keys y = false := by simpa using (List.mem_filter.1 hy).2
+    have nx : rowHasNaNKey keys x = false := nfRow_false (List.mem_filter.1 hx).2
+    have ny : rowHasNaNKey keys y = false := nfRow_false (List.mem_filter.1 hy).2
     rw [specRowCmp_eq keys x y nx ny]; exact hxy
   · intro hk; subst hk; rfl
   · unfold queryPage
     exact applyPagination_eq _ _ _
+
+/-- **the executable Spec oracle decides the Spec of a page** (the check's verdicts on the implementation's
+    output are verdicts about the proposition below, both ways). -/
+theorem oracle_decides_spec (keys : List SortKey) (a : List WRow) (limit offset : Option Nat) (page : List WRow)
+    (hw : ∀ r ∈ a, RowWF r) :
+    specPageOk keys a limit offset page = true ↔ PageSpec keys a limit offset page :=
+  specPageOk_iff keys a limit offset page hw
+
+/-- **C35 in oracle form** (the statement that used to be refuted): the oracle accepts the model's page,
+    for every answer of well-formed rows, every key list, limit and offset. -/
+theorem C35_statement (a : List WRow) (keys : List SortKey) (limit offset : Option Nat) (hw : ∀ r ∈ a, RowWF r) :
+    (queryPage a keys limit offset).1 = a.length ∧
+    specPageOk keys a limit offset (queryPage a keys limit offset).2 = true := by
+  obtain ⟨ht, s, hperm, hsorted, hnil, hpage⟩ := C35 a keys limit offset hw
+  refine ⟨ht, (specPageOk_iff keys a limit offset _ hw).2 ?_⟩
+  unfold PageSpec
+  by_cases hk : keys = []
+  · simp only [hk, if_true]
+    rw [hk] at hpage
+    rw [hpage, hnil hk]; rfl
+  · simp only [hk, if_false]
+    exact ⟨s, hperm, (hsorted hk).2, by rw [hpage]; rfl⟩
 
 /-- without annotations the answer's own order is kept and the page is its exact slice. -/
 theorem C35_no_annotations (a : List WRow) (limit offset : Option Nat) :
